@@ -13,7 +13,7 @@ PROCS = 8
 HARNESS_TIMEOUT = 900
 
 RULE = ("four script families over 2-3 real kv.DB nodes (kv.Open pipelines, memkv engines, mock networks, gossip timer "
-        "off, every message delivered by the script): (A) one coherent operation set (3 keys x leaseholders {1,2,3,7} x "
+        "off, every message delivered by the script): (A) one coherent operation set (3 keys x leaseholders {4,5,6,7} (nodes outside the driven cluster) x "
         "versions 1-6, sets and deletes, >=40% with equal-version/different-leaseholder pairs) injected into every node "
         "in a different order, batching and duplication; (B) cluster life: writes/deletes through DB.Set/Delete (lease "
         "forwarding, explicit lease options, 15% with two nodes creating the same key), gossip rounds (reply read "
@@ -36,7 +36,7 @@ PARTIAL = None
 READY = False
 
 KEYS = [1, 2, 3]
-LHS = [1, 2, 3, 7]
+LHS = [4, 5, 6, 7]   # leaseholders of injected operations: nodes outside the driven cluster
 
 
 # --------------------------------------------------------------------------- generator
@@ -179,7 +179,7 @@ def gen_D(rng):
             for _ in range(rng.randrange(1, 4)):
                 d = rng.random() < 0.3
                 b.append({"k": rng.choice(KEYS), "ver": rng.choice([0, -1, -3, 1, 2, 2 ** 40]),
-                          "lh": rng.choice([0, 1, 2, 4095]), "del": d, "v": 0 if d else rng.randrange(1, 90)})
+                          "lh": rng.choice([0, 6, 7, 4095] + ([1, 2] if rng.random() < 0.1 else [])), "del": d, "v": 0 if d else rng.randrange(1, 90)})
             o = {"op": "inject", "n": rng.choice(nodes), "sender": rng.choice(nodes + [0, 9]), "batch": b}
         elif x < 0.55:
             # incoherent duplicates: same (k, ver, lh), different payload, same batch or not
